@@ -87,6 +87,8 @@ FIXED = [
      'kbest_matches(3) followed by kbest_matches(1) on one object returned 3 matches', None),
     ('F38', 'C14', 'fix: subsequence search applied LB_Keogh although psi-relaxation was requested',
      'query [0,1,2.5], candidate [1,1,2.5,2.5], psi=1 (distance 0) pruned by LB_Keogh: missing from the k best', None),
+    ('F39', 'C16', 'fix: k-means++ seeding asked numpy for more candidates than series with non-zero weight',
+     'KMeans(k=2, initialize_sample_size=2).fit([[0,0],[0,0],[0,1.5,1.5]]) raised ValueError (Fewer non-zero entries in p than size) for some random draws', None),
 ]
 
 OPEN = [
